@@ -150,6 +150,7 @@ func execCrowd(t *testing.T, prop string, planJSON []byte, ch *simrt.Choices, tr
 	var findings []finding
 	calls := 0
 	var steps uint64
+	unfinished := false
 	pv := bubble(t, func() {
 		sim := simrt.New(ch)
 		defer sim.Close()
@@ -263,6 +264,7 @@ func execCrowd(t *testing.T, prop string, planJSON []byte, ch *simrt.Choices, tr
 		})
 		sim.OnIdle = func() bool { return done }
 		sim.Run()
+		unfinished = !done
 		steps = sim.Seq
 		sim.Teardown()
 	})
@@ -280,6 +282,9 @@ func execCrowd(t *testing.T, prop string, planJSON []byte, ch *simrt.Choices, tr
 	}
 	for _, f := range findings {
 		out.Violations = append(out.Violations, Violation{Prop: prop, Class: f.class, Key: f.key, Msg: f.msg})
+	}
+	if unfinished && len(findings) == 0 {
+		out.Inconclusive = "scenario-did-not-finish"
 	}
 	out.Sample = map[string]interface{}{"scenario": "crowd", "proto": p.Proto, "exporters": p.N, "items": len(p.Items), "revisits": p.Revisit, "calls": calls}
 	return out
